@@ -1139,6 +1139,40 @@ pub fn t17(prop: &str, seed: u64) -> RunDesc {
     d
 }
 
+/// T18: garbage made by garbage. A deferred function that runs inside its own thread's
+/// collection defers a child and flushes (from inside the collection); the thread then stays
+/// alive but never enters the library again. The flush has handed the child to the collector,
+/// so the rounds of another thread run it (C15: "after finitely many further rounds by any
+/// surviving thread").
+pub fn t18(prop: &str, seed: u64) -> RunDesc {
+    let mut rng = Rng::new(seed);
+    let mut d = base(&mut rng, prop, "dir-t18", seed, 2);
+    d.cfg.stall = None;
+    d.cfg.dtor_api = 0;
+    d.cfg.manual_interval = 64;
+    d.cfg.max_objects = *rng.pick(&[4u32, 8, 64]);
+    let k = 1 + rng.below(3) as u32;
+    let depth = 1 + rng.below(3) as u32;
+    let mut a = vec![o(K::Pin, 0, 0, 0, 0), o(K::Unpin, 0, 0, 0, 0), o(K::Pin, 0, 0, 0, 0)];
+    for _ in 0..k {
+        a.push(o(K::Defer, 0, rng.below(10) as u32, depth, 0));
+    }
+    a.extend([o(K::Flush, 0, 0, 0, 0), o(K::Unpin, 0, 0, 0, 0)]);
+    for _ in 0..4 + rng.below(2) {
+        a.extend([o(K::Pin, 0, 0, 0, 0), o(K::TryAdvance, 0, 0, 0, 0), o(K::Unpin, 0, 0, 0, 0)]);
+    }
+    // this unpin collects: the functions run here and each defers a child and flushes
+    a.extend([o(K::Pin, 0, 0, 0, 0), o(K::Flush, 0, 0, 0, 0), o(K::Unpin, 0, 0, 0, 0)]);
+    a.extend([o(K::Signal, 1, 0, 0, 0), o(K::Await, 2, 0, 0, 0)]);
+    d.threads.push(thread(1, "idle-after-its-collection", a));
+    let mut b = vec![o(K::Await, 1, 0, 0, 0)];
+    b.extend(rounds(8 + 6 * depth as usize + rng.below(4) as usize));
+    b.extend([o(K::CheckDeferred, k * (depth + 1), 0, 0, 0), o(K::Signal, 2, 0, 0, 0)]);
+    d.threads.push(thread(1, "survivor", b));
+    d.params = J::obj().set("template", "T18 a deferred function defers and flushes from inside its thread's own collection; the thread then idles").set("functions", k).set("chain_depth", depth);
+    d
+}
+
 /// T5: clock wrap — no collection of the interesting objects while stamps age past 16 / 32
 /// epochs, then the T2 choreography.
 pub fn t5(prop: &str, seed: u64) -> RunDesc {
